@@ -494,12 +494,20 @@ def r08c(P, R):
     vlocals = {b["local"] for p in vf.params for b in subnodes(p) if b.get("k") == "Binding" and "FnMut" in str(p.get("t", "")) or "impl " in str(p.get("t", ""))}
     vcalls = [(i, x) for i, (x, _) in enumerate(vf.nodes()) if x.get("k") == "Call" and isinstance(x.get("callee_e"), dict) is False and call_name(x) is None]
     R.floor("R08-c", "visitor invocations in visit_fields_in_selection_set_impl", len(vcalls), 1)
+    from templates import guards_of
     for i, x in vcalls:
-        cond_ctx = [c[0] for c in enclosing_contexts(vf, i) if (c[0] == "arm" and c[1] is not None and c[1].get("src") == "Normal") or c[0] in ("if-then", "if-else", "let-else", "closure")]
-        R.check("R08-c", "visitor-every-selection", not cond_ctx and len(vcalls) == 1, "visitor(sel) runs once for every selection of the loop",
+        gs = [g for g in guards_of(vf, i) if g["kind"] in ("cond", "pat") or (g["kind"] == "arm" and g.get("match") is not None and g["match"].get("src") == "Normal")
+              or (g["kind"] == "arg" and g.get("closure"))]
+        # the loop's own desugaring and the kind dispatch on `Selection` are not conditions on the selection's content
+        gs = [g for g in gs if not (g["kind"] == "arm" and "Selection" in str((g["e"] or {}).get("t", "")) and "Option" not in str((g["e"] or {}).get("t", "")))]
+        how = ["%s:%s" % (g["kind"], "after-skip" if g.get("node") is not None and g["kind"] == "cond" and not any(n is x for n in subnodes(g["node"])) else "inside") for g in gs]
+        from templates import exits_before
+        early = exits_before(vf, i)
+        how += ["preceded-by-%s" % k.lower() for _, k in early]
+        R.check("R08-c", "visitor-every-selection", not gs and not early and len(vcalls) == 1, "visitor(sel) runs once for every selection of the loop",
                 "the visitor is invoked conditionally (%s; %d call sites): a selection skipped by the seen-fragment test is never shown to "
                 "get_boolean_variables, so a @skip/@include variable used only there is missing from the branching condition and "
-                "check_skip_directive's expect(\"Type system error\") panics" % (cond_ctx, len(vcalls)), loc=vf.loc())
+                "check_skip_directive's expect(\"Type system error\") panics" % (how, len(vcalls)), loc=vf.loc())
     # loader: every access to Task.loaded_files uses the same key form
     task_adt = [a for a in P.adts.values() if a.path.startswith("graphql_loader::") and a.path.endswith("::Task")]
     TASK = task_adt[0].path if len(task_adt) == 1 else "graphql_loader::tasks::Task"
